@@ -263,3 +263,83 @@ LEMMAS = [
      ('C06',)),
     ('C06 lower <= estimate for all levels', _lemma_order(False), ('C06',)),
 ]
+
+
+# ---------------------------------------------------------------------------
+# TBR._construct_analysis_data (C06 / C18): the aggregated frame is ordered by
+# (group, date) - every later step (cumulative sums, "last row") reads it in
+# date order.  groupby(keys).agg(...) sorts by the keys unless sort=False.
+
+ASSUMPTIONS.append(
+    'pandas: df.groupby(keys, sort=True (default)).agg(spec) has one row per '
+    'distinct key combination, ordered by the keys; with sort=False the order '
+    'is that of first appearance (no ordering guarantee)')
+
+_td.ispec.classes['TBR'].fields.update({
+    'df_names': TObj('DataFrameNameMapping'), 'target': TInt()})
+
+
+class VGroupBy(V):
+  kind = 'groupby'
+
+  def __init__(self, frame, keys, sorted_):
+    self.frame = frame
+    self.keys = keys
+    self.sorted = sorted_
+
+  def py_getattr(self, ex, name, node):
+    if name == 'agg':
+      def agg(ex_, args, kwargs, n):
+        f = self.frame
+        out = VAggFrame(uf('AGG_SRC', [f.src, f.rows] + self.keys, I),
+                        z3.Const(ex_.ctx.sym('agg.rows'), _fl.RowSet))
+        out.keys = self.keys
+        out.sorted = self.sorted
+        return out
+      return VBound(agg)
+    ex.unsupported(node, 'groupby attribute %s' % name)
+
+
+class VAggFrame(_fl.VFrame):
+  keys = None
+  sorted = None
+
+
+def _groupby(ex, frame, args, kwargs, node):
+  keys = args[0]
+  if not (isinstance(keys, VTuple) and all(isinstance(k, VInt)
+                                           for k in keys.items)):
+    ex.unsupported(node, 'groupby keys')
+  srt = kwargs.get('sort', VBool(True))
+  if not isinstance(srt, VBool):
+    ex.unsupported(node, 'groupby(sort=<non-bool>)')
+  st = z3.simplify(srt.t)
+  if z3.is_true(st):
+    flag = z3.BoolVal(True)
+  else:      # first-appearance order: sorted only by coincidence
+    flag = z3.Bool(ex.ctx.sym('happens_to_be_sorted'))
+  return VGroupBy(frame, [k.t for k in keys.items], flag)
+
+
+_orig_getattr = _fl.VFrame.py_getattr
+
+
+def _frame_getattr(self, ex, name, node):
+  if name == 'groupby':
+    return VBound(lambda ex_, a, k, n: _groupby(ex_, self, a, k, n))
+  return _orig_getattr(self, ex, name, node)
+
+
+_fl.VFrame.py_getattr = _frame_getattr
+
+spec.contract(
+    'TBR._construct_analysis_data', params={'data': _fl.TFrame()},
+    modifies=['self.analysis_data'], props=('C06', 'C18'),
+    ensures=[('C06/C18 the aggregated analysis frame is grouped by (group, '
+              'date) and ordered by these keys', lambda s: z3.And(
+                  unwrap(s.self.analysis_data).sorted,
+                  z3.And([a == b for a, b in zip(
+                      unwrap(s.self.analysis_data).keys,
+                      [N(s.self.df_names.group), N(s.self.df_names.date)])])))])
+
+FUNCTIONS.append('TBR._construct_analysis_data')
